@@ -256,8 +256,8 @@ func (p *primary) pruneSnapshots(pos int) bool {
 }
 
 // deepPrune takes a snapshot at the current position and then enforces TXID
-// retention at that position on levels 1..3 (what retention does once older
-// snapshots are gone): every compaction file that ends before the snapshot is
+// retention at that position on levels 1..3 and removes the older snapshots (what
+// Store.EnforceSnapshotRetention does with a short retention): every compaction file that ends before the snapshot is
 // removed except the newest file of its level. A follower that is down at an
 // older TXID can afterwards only catch up through several levels (e.g. the
 // surviving coarse L2 file, then the newest L1 file, then level 0).
@@ -273,10 +273,14 @@ func (p *primary) deepPrune() {
 			p.e.Logf("EnforceRetentionByTXID(%d,%d) err=%v", level, info.MaxTXID, err)
 		}
 	}
-	if p.rng.Intn(2) == 0 {
-		if _, err := p.e.LS.EnforceSnapshotRetention(p.ctx, time.Now()); err != nil {
-			p.e.Logf("EnforceSnapshotRetention err=%v", err)
-		}
+	// The older snapshots go as well, as in Store.EnforceSnapshotRetention, which trims the
+	// compaction levels only below the oldest snapshot it keeps. (An earlier version kept them
+	// in half of the cases: a state litestream's own retention never produces, in which a
+	// follower above the oldest snapshot finds its way up deleted -- a false alarm of this
+	// harness, DESIGN section 11.)
+	_ = p.rng.Intn(2) // PRNG stream unchanged
+	if _, err := p.e.LS.EnforceSnapshotRetention(p.ctx, time.Now()); err != nil {
+		p.e.Logf("EnforceSnapshotRetention err=%v", err)
 	}
 	p.e.Logf("deep prune at TXID %d: files now %v", info.MaxTXID, oracle.ListAll(p.e.RepPath))
 	p.res.Count("primary_deep_prune", 1)
